@@ -320,6 +320,8 @@ structure Tr (j : Nat) (s s' : St) : Prop where
   regResult : s'.regResult = s.regResult
   ready : ∃ app, s'.ready = s.ready ++ app ∧ ∀ i, app.count (Cb.register i) = 0
   threads : ∃ app, s'.threads = s.threads ++ app ∧ ∀ t ∈ app, t.2 = j
+  identJ : (s'.jobs j).ident = (s.jobs j).ident
+  codeJ : (s'.jobs j).code = (s.jobs j).code
 
 theorem Tr.refl (j : Nat) (s : St) : Tr j s s := by
   constructor <;> simp
@@ -342,6 +344,8 @@ theorem Tr.trans {j : Nat} {s1 s2 s3 : St} (h1 : Tr j s1 s2) (h2 : Tr j s2 s3) :
     rcases List.mem_append.mp ht with h | h
     · exact hd1 t h
     · exact hd2 t h
+  · rw [h2.identJ, h1.identJ]
+  · rw [h2.codeJ, h1.codeJ]
 
 theorem Bg.tr {s s' : St} (h : Bg s s') (j : Nat) : Tr j s s' := by
   constructor
@@ -353,13 +357,17 @@ theorem Bg.tr {s s' : St} (h : Bg s s') (j : Nat) : Tr j s s' := by
   · exact h.regResult
   · exact h.ready
   · exact ⟨[], by simp [h.threads], by simp⟩
+  · have := congrArg View.ident (h.view j); simpa [XpmVerif.Restart.view] using this
+  · have := congrArg View.code (h.view j); simpa [XpmVerif.Restart.view] using this
 
 /-- callbacks that concern no other job than `j` and are no registrations -/
 def cbsOf (j : Nat) (cbs : List Cb) : Prop :=
   ∀ i, cbs.count (Cb.register i) = 0 ∧ (i ≠ j → cbs.count (Cb.start i) = 0 ∧ cbs.count (Cb.wake i) = 0 ∧ cbs.count (Cb.resume i) = 0)
 
 theorem put_tr (s : St) (j : Nat) (jb : Job) (cbs : List Cb) (ths : List (TK × Nat))
-    (hc : cbsOf j cbs) (ht : ∀ t ∈ ths, t.2 = j) : Tr j s (s.put j jb cbs ths) := by
+    (hc : cbsOf j cbs) (ht : ∀ t ∈ ths, t.2 = j)
+    (hid : jb.ident = (s.jobs j).ident := by first | rfl | simp_all [jobs_put])
+    (hcode : jb.code = (s.jobs j).code := by first | rfl | simp_all [jobs_put]) : Tr j s (s.put j jb cbs ths) := by
   constructor
   · intro i hi
     rw [view_put]
@@ -373,6 +381,8 @@ theorem put_tr (s : St) (j : Nat) (jb : Job) (cbs : List Cb) (ths : List (TK × 
   · rfl
   · exact ⟨cbs, rfl, fun i => (hc i).1⟩
   · exact ⟨ths, rfl, ht⟩
+  · simpa [jobs_put] using hid
+  · simpa [jobs_put] using hcode
 
 theorem cbsOf_nil (j : Nat) : cbsOf j [] := by intro i; simp
 theorem cbsOf_wake (j : Nat) : cbsOf j [Cb.wake j] := by
@@ -382,9 +392,9 @@ theorem failed_tr (j : Nat) (s : St) (f : List Nat) : Tr j s (setFailed s f) :=
   (bg_of_jobs_eq _ _ rfl rfl rfl rfl rfl rfl rfl : Bg s (setFailed s f)).tr j
 
 theorem loopHead_tr (s : St) (j : Nat) : Tr j s (s.loopHead j) := by
-  obtain ⟨f, jb', ths, he, -, -, -, -, -, hc⟩ := loopHead_nf s j
+  obtain ⟨f, jb', ths, he, -, -, h3, h4, -, hc⟩ := loopHead_nf s j
   rw [he]
-  refine Tr.trans (failed_tr j s f) (put_tr _ j jb' [] ths (cbsOf_nil j) ?_)
+  refine Tr.trans (failed_tr j s f) (put_tr _ j jb' [] ths (cbsOf_nil j) ?_ (by simpa using h3) (by simpa using h4))
   rcases hc with ⟨-, -, h, -⟩ | ⟨-, -, h, -⟩ | ⟨-, -, h, -⟩ <;> simp [h]
 
 theorem view_pc_eq {s s' : St} {i j : Nat} (h : view s' i = view s j) : (s'.jobs i).pc = (s.jobs j).pc := by
@@ -780,7 +790,8 @@ theorem resume_codeWait (fl : Flags) (s : St) (j : Nat) (ad : Bool) (hp : (s.job
 
 theorem eventSet_awake (x : Job) (hx : x.sleeping = false) :
     (eventSet x).2 = false ∧ (eventSet x).1.sleeping = false ∧ (eventSet x).1.pc = x.pc ∧
-    (eventSet x).1.launches = x.launches ∧ (eventSet x).1.marker = x.marker := by
+    (eventSet x).1.launches = x.launches ∧ (eventSet x).1.marker = x.marker ∧
+    (eventSet x).1.ident = x.ident ∧ (eventSet x).1.code = x.code := by
   unfold eventSet; grind
 
 theorem resume_lockExitAbort (fl : Flags) (s : St) (j : Nat) (ad : Bool) (hp : (s.jobs j).pc = .lockExitAbort) (h : PreR s j ad) :
@@ -800,15 +811,15 @@ theorem resume_lockExitAbort (fl : Flags) (s : St) (j : Nat) (ad : Bool) (hp : (
   generalize hr : (if fl.abortRechecks ∧ (s1.jobs j).unsat = 0 then eventSet { (s1.jobs j) with state := .ready }
                 else ({ (s1.jobs j) with state := .waiting }, false)) = r
   have hrs : r.1.pc = .lockExitAbort ∧ r.1.launches = (s1.jobs j).launches ∧ r.1.marker = (s1.jobs j).marker ∧
-      r.1.sleeping = false ∧ r.2 = false := by
+      r.1.sleeping = false ∧ r.2 = false ∧ r.1.ident = (s1.jobs j).ident ∧ r.1.code = (s1.jobs j).code := by
     rw [← hr]
     split
-    · obtain ⟨a1, a2, a3, a4, a5⟩ := eventSet_awake { (s1.jobs j) with state := .ready } h1.sl
-      exact ⟨by rw [a3]; exact hp1, a4, a5, a2, a1⟩
+    · obtain ⟨a1, a2, a3, a4, a5, a6, a7⟩ := eventSet_awake { (s1.jobs j) with state := .ready } h1.sl
+      exact ⟨by rw [a3]; exact hp1, a4, a5, a2, a1, a6, a7⟩
     · simp [hp1, h1.sl]
   obtain ⟨r1, r2⟩ := r
   simp only at hrs
-  obtain ⟨q1, q2, q3, q4, q5⟩ := hrs
+  obtain ⟨q1, q2, q3, q4, q5, q6, q7⟩ := hrs
   subst q5
   simp only [Bool.false_eq_true, if_false]
   obtain ⟨f, jb', ths, he, g1, g2, g3, g4, g5, hc⟩ := loopHead_nf (s1.put j r1 []) j
@@ -958,5 +969,282 @@ theorem stepsA_inv {D : Type} (fl : Flags) (hk : Hooks D) (k : Nat) : ∀ (a : S
   induction k with
   | zero => intro a h; exact h
   | succ k ih => intro a h; exact ih _ (stepA_inv fl hk a h)
+
+@[simp] theorem eff_put (s : St) (j : Nat) (jb : Job) (cbs : List Cb) (ths : List (TK × Nat)) : (s.put j jb cbs ths).eff = s.eff := rfl
+@[simp] theorem n_put (s : St) (j : Nat) (jb : Job) (cbs : List Cb) (ths : List (TK × Nat)) : (s.put j jb cbs ths).n = s.n := rfl
+@[simp] theorem registry_put (s : St) (j : Nat) (jb : Job) (cbs : List Cb) (ths : List (TK × Nat)) : (s.put j jb cbs ths).registry = s.registry := rfl
+@[simp] theorem regResult_put (s : St) (j : Nat) (jb : Job) (cbs : List Cb) (ths : List (TK × Nat)) : (s.put j jb cbs ths).regResult = s.regResult := rfl
+
+theorem register_same (fl : Flags) (s : St) (j : Nat) :
+    (s.register fl j).jobs = s.jobs ∧ (s.register fl j).ready = s.ready ∧ (s.register fl j).threads = s.threads ∧
+    (s.register fl j).n = s.n ∧ (s.register fl j).eff = s.eff := by
+  unfold St.register; simp only []; split <;> (try split) <;> (try split) <;> simp
+
+theorem runCb_plain_frame (fl : Flags) (cb : Cb) (hc : plainCb cb = true) (s : St) (i : Nat) :
+    view (s.runCb fl cb) i = view s i ∧ (s.runCb fl cb).n = s.n ∧ (s.runCb fl cb).eff = s.eff := by
+  cases cb <;> simp [plainCb] at hc
+  · obtain ⟨h1, h2, h3, h4, h5⟩ := register_same fl s ‹_›
+    simp only [St.runCb, view, cStart, cRes, cW, cWake, cSleep, cThr, h1, h2, h3, h4, h5]; simp
+  · rename_i j d; have hb := check_bg fl s j d; exact ⟨hb.view i, hb.n, hb.eff⟩
+  · rename_i j d
+    simp only [St.runCb]
+    split
+    · split
+      · have hb := check_bg fl s j d; exact ⟨hb.view i, hb.n, hb.eff⟩
+      · simp
+    · have hb := check_bg fl s j d; exact ⟨hb.view i, hb.n, hb.eff⟩
+  · simp only [St.runCb, St.waiterRun]
+    split <;> simp [view, cStart, cRes, cW, cWake, cSleep, cThr]
+
+/-- a callback leaves every job alone of which it is no continuation -/
+theorem runCbA_frame {D : Type} (fl : Flags) (hk : Hooks D) (a : StA D) (cb : Cb) (h : InvP (some cb) a.s a.adopted) (i : Nat)
+    (hi : cb ≠ .start i ∧ cb ≠ .wake i ∧ cb ≠ .resume i) :
+    view (runCbA fl hk a cb).s i = view a.s i ∧ (runCbA fl hk a cb).adopted i = a.adopted i := by
+  by_cases hc : plainCb cb = true
+  · rw [runCbA_plain fl hk a cb hc]; exact ⟨(runCb_plain_frame fl cb hc a.s i).1, rfl⟩
+  · cases cb <;> simp [plainCb] at hc
+    · rename_i j
+      have hij : i ≠ j := by intro e; subst e; simp at hi
+      obtain ⟨⟨g1, -, -⟩, g4⟩ := start_good fl hk a j h
+      exact ⟨g1.other i hij, g4 i hij⟩
+    · rename_i j
+      have hij : i ≠ j := by intro e; subst e; simp at hi
+      obtain ⟨g1, -, -⟩ := wake_good fl a.s a.adopted j h
+      exact ⟨by simpa [runCbA] using g1.other i hij, rfl⟩
+    · rename_i j
+      have hij : i ≠ j := by intro e; subst e; simp at hi
+      obtain ⟨hk', hth, hst, hrs, hwk, hsl, hla, hma, had⟩ := pre_resume a.s (a.adopted j) j (h.loc j)
+      obtain ⟨g1, -, -⟩ := resume_good fl a.s j (a.adopted j) hk' ⟨hth, hst, hrs, hwk, hsl, hla, hma, had⟩
+      simp only [runCbA]
+      split <;> exact ⟨g1.other i hij, rfl⟩
+
+theorem runCbA_n {D : Type} (fl : Flags) (hk : Hooks D) (a : StA D) (cb : Cb) (h : InvP (some cb) a.s a.adopted) :
+    (runCbA fl hk a cb).s.n = a.s.n ∧ (runCbA fl hk a cb).s.eff = a.s.eff := by
+  by_cases hc : plainCb cb = true
+  · rw [runCbA_plain fl hk a cb hc]; exact (runCb_plain_frame fl cb hc a.s 0).2
+  · cases cb <;> simp [plainCb] at hc
+    · rename_i j
+      obtain ⟨⟨g1, -, -⟩, -⟩ := start_good fl hk a j h
+      exact ⟨g1.n, g1.eff⟩
+    · rename_i j
+      obtain ⟨g1, -, -⟩ := wake_good fl a.s a.adopted j h
+      exact ⟨by simpa [runCbA] using g1.n, by simpa [runCbA] using g1.eff⟩
+    · rename_i j
+      obtain ⟨hk', hth, hst, hrs, hwk, hsl, hla, hma, had⟩ := pre_resume a.s (a.adopted j) j (h.loc j)
+      obtain ⟨g1, -, -⟩ := resume_good fl a.s j (a.adopted j) hk' ⟨hth, hst, hrs, hwk, hsl, hla, hma, had⟩
+      simp only [runCbA]
+      split <;> exact ⟨g1.n, g1.eff⟩
+
+/-- a job without coroutine keeps its record's control part (in particular `pc = none`) through any callback -/
+theorem runCbA_idle {D : Type} (fl : Flags) (hk : Hooks D) (a : StA D) (cb : Cb) (h : InvP (some cb) a.s a.adopted) (i : Nat)
+    (hi : (a.s.jobs i).pc = .none) :
+    view (runCbA fl hk a cb).s i = view a.s i ∧ (runCbA fl hk a cb).adopted i = a.adopted i := by
+  apply runCbA_frame fl hk a cb h i
+  refine ⟨?_, ?_, ?_⟩ <;> intro e <;> subst e
+  · exact not_idle_of_pending _ i (by simp) a.s _ (h.loc i) hi
+  · exact not_idle_of_pending _ i (by simp) a.s _ (h.loc i) hi
+  · exact not_idle_of_pending _ i (by simp) a.s _ (h.loc i) hi
+
+theorem stepA_idle {D : Type} (fl : Flags) (hk : Hooks D) (a : StA D) (h : InvP none a.s a.adopted) (i : Nat)
+    (hi : (a.s.jobs i).pc = .none) :
+    ((stepA fl hk a).s.jobs i).pc = .none ∧ ((stepA fl hk a).s.jobs i).launches = (a.s.jobs i).launches ∧
+    ((stepA fl hk a).s.jobs i).ident = (a.s.jobs i).ident ∧
+    (stepA fl hk a).s.n = a.s.n ∧ (stepA fl hk a).s.eff = a.s.eff := by
+  unfold stepA
+  split
+  · exact ⟨hi, rfl, rfl, rfl, rfl⟩
+  · rename_i cb rest hr
+    have hp := pop_inv h hr
+    obtain ⟨hv, -⟩ := runCbA_idle fl hk { a with s := { a.s with ready := rest } } cb hp i hi
+    obtain ⟨hn, he⟩ := runCbA_n fl hk { a with s := { a.s with ready := rest } } cb hp
+    simp only [view, View.mk.injEq] at hv
+    exact ⟨by rw [hv.1]; exact hi, hv.2.2.2.2.2.1, hv.2.2.2.2.2.2.2.1, hn, he⟩
+
+theorem stepsA_idle {D : Type} (fl : Flags) (hk : Hooks D) (k : Nat) : ∀ (a : StA D), InvP none a.s a.adopted → ∀ i,
+    (a.s.jobs i).pc = .none →
+    ((stepsA fl hk a k).s.jobs i).pc = .none ∧ ((stepsA fl hk a k).s.jobs i).launches = (a.s.jobs i).launches ∧
+    ((stepsA fl hk a k).s.jobs i).ident = (a.s.jobs i).ident ∧
+    (stepsA fl hk a k).s.n = a.s.n ∧ (stepsA fl hk a k).s.eff = a.s.eff := by
+  induction k with
+  | zero => intro a _ i hi; exact ⟨hi, rfl, rfl, rfl, rfl⟩
+  | succ k ih =>
+    intro a h i hi
+    obtain ⟨s1, s2, s3, s4, s5⟩ := stepA_idle fl hk a h i hi
+    obtain ⟨t1, t2, t3, t4, t5⟩ := ih (stepA fl hk a) (stepA_inv fl hk a h) i s1
+    exact ⟨t1, t2.trans s2, t3.trans s3, t4.trans s4, t5.trans s5⟩
+
+
+/-- the invariant at event boundaries -/
+def InvA {D : Type} (a : StA D) : Prop := InvP none a.s a.adopted
+
+theorem countP_eraseIdx {α : Type} (p : α → Bool) : ∀ (l : List α) (k : Nat) (x : α), l[k]? = some x →
+    (l.eraseIdx k).countP p + (if p x then 1 else 0) = l.countP p := by
+  intro l
+  induction l with
+  | nil => intro k x h; simp at h
+  | cons y ys ih =>
+    intro k x h
+    cases k with
+    | zero => simp at h; subst h; simp [List.countP_cons]
+    | succ k =>
+      simp at h
+      have := ih k x h
+      simp [List.eraseIdx_cons_succ, List.countP_cons]
+      omega
+
+theorem submitPre_inv {D : Type} (a : StA D) (h : InvA a) (rec : Job)
+    (hrec : rec.pc = .none ∧ rec.launches = 0 ∧ rec.sleeping = false) : InvA (submitPre a rec) := by
+  obtain ⟨r1, r2, r3⟩ := hrec
+  have hf := h.fresh a.s.n (Nat.le_refl _)
+  have hl := h.loc a.s.n
+  simp only [LocV, CtlV, view, hf.1, pk, pcAdopted, pcMarker, launched, cW, cSleep] at hl
+  unfold InvA submitPre
+  constructor
+  · intro i
+    by_cases hi : i = a.s.n
+    · subst hi
+      simp [LocV, CtlV, view, cStart, cRes, cW, cWake, cSleep, cThr, upd, List.count_append, r1, r2, r3, pk, pcAdopted,
+        pcMarker, launched] at hl ⊢
+      grind
+    · have := h.loc i
+      simpa [view, cStart, cRes, cW, cWake, cSleep, cThr, upd, hi, List.count_append] using this
+  · intro i hi
+    have hi' : a.s.n ≤ i := by simp at hi; omega
+    have hne : i ≠ a.s.n := by simp at hi; omega
+    simpa [upd, hne] using h.fresh i hi'
+  · intro i hi
+    by_cases hne : i = a.s.n
+    · subst hne; simp [upd, r1]
+    · simpa [upd, hne] using h.dup i hi
+  · intro t ht
+    have := h.kind t ht
+    by_cases hne : t.2 = a.s.n
+    · rw [hne, hf.1] at this; cases t.1 <;> simp [kindOk] at this
+    · simpa [upd, hne] using this
+
+theorem setCode_inv (s : St) (ad : Nat → Bool) (j : Nat) (c : Option Nat) (h : InvP none s ad) :
+    InvP none (setCode s j c) ad ∧ (setCode s j c).threads = s.threads := by
+  cases c with
+  | none => exact ⟨h, rfl⟩
+  | some c =>
+    refine ⟨?_, by simp [setCode]⟩
+    simp only [setCode]
+    constructor
+    · intro i
+      have := h.loc i
+      simp only [] at this ⊢
+      rw [view_put]
+      by_cases hi : i = j
+      · subst hi; simpa [LocV, CtlV, view, cW, cSleep] using this
+      · simpa [hi, view, cW] using this
+    · intro i hi
+      have := h.fresh i hi
+      by_cases e : i = j
+      · subst e; simpa [jobs_put] using this
+      · simpa [jobs_put, e] using this
+    · intro i hi
+      have := h.dup i hi
+      by_cases e : i = j
+      · subst e; simpa [jobs_put] using this
+      · simpa [jobs_put, e] using this
+    · intro t ht
+      have := h.kind t (by simpa using ht)
+      by_cases e : t.2 = j
+      · rw [e] at this ⊢; simpa [jobs_put] using this
+      · simpa [jobs_put, e] using this
+
+theorem deliverA_inv {D : Type} (a : StA D) (k j : Nat) (kind : TK) (c : Option Nat) (d' : D) (h : InvA a)
+    (hkj : a.s.threads[k]? = some (kind, j)) : InvA (deliverA a k j c d') := by
+  obtain ⟨hs1, hth⟩ := setCode_inv a.s a.adopted j c h
+  unfold InvA deliverA
+  simp only []
+  generalize setCode a.s j c = s1 at *
+  have hkj1 : s1.threads[k]? = some (kind, j) := by rw [hth]; exact hkj
+  have hcnt := fun i => countP_eraseIdx (fun t : TK × Nat => t.2 == i) s1.threads k (kind, j) hkj1
+  constructor
+  · intro i
+    have hl := hs1.loc i
+    have hc := hcnt i
+    simp only [LocV, CtlV, view, cStart, cRes, cW, cWake, cSleep, cThr, List.count_append] at hl ⊢
+    by_cases hi : i = j
+    · subst hi
+      simp at hc
+      generalize (s1.jobs i).pc = pc at *
+      cases pc <;> simp [pk, launched, pcMarker, pcAdopted, List.count_cons] at hl ⊢ <;> grind
+    · have : (j == i) = false := by simp; omega
+      simp [this] at hc
+      simp [List.count_cons, Ne.symm hi, hc] at hl ⊢
+      exact hl
+  · exact hs1.fresh
+  · exact hs1.dup
+  · intro t ht
+    exact hs1.kind t (List.mem_of_mem_eraseIdx ht)
+
+theorem submitPost_inv {D : Type} (a : StA D) (j : Nat) (h : InvA a) (hj : j < a.s.n) (hpc : (a.s.jobs j).pc = .none) :
+    InvA (submitPost a j) := by
+  have hl := h.loc j
+  simp only [LocV, CtlV, view, hpc, pk, pcAdopted, pcMarker, launched, cW, cSleep] at hl
+  unfold InvA submitPost
+  split
+  · rename_i o _
+    refine ⟨h.loc, ?_, ?_, h.kind⟩
+    · intro i hi
+      have : i ≠ j := by simp at hi; omega
+      simpa [upd, this] using h.fresh i hi
+    · intro i hi
+      by_cases e : i = j
+      · subst e; exact hpc
+      · exact h.dup i (by simpa [upd, e] using hi)
+  · constructor
+    · intro i
+      have := h.loc i
+      simp only [] at this ⊢
+      rw [view_put]
+      by_cases hi : i = j
+      · subst hi
+        simp [LocV, CtlV, view, cStart, cRes, cW, cWake, cSleep, cThr, pk, pcAdopted, pcMarker, launched] at hl ⊢
+        grind
+      · simpa [hi, view, cW, cStart, cRes, cWake, cSleep, cThr, Ne.symm hi] using this
+    · intro i hi
+      have hne : i ≠ j := by simp [St.put] at hi; omega
+      simpa [St.put, upd, hne] using h.fresh i (by simpa [St.put] using hi)
+    · intro i hi
+      by_cases e : i = j
+      · subst e; simp [St.put, upd] at hi
+      · simpa [St.put, upd, e] using h.dup i (by simpa [St.put, upd, e] using hi)
+    · intro t ht
+      have := h.kind t (by simpa [St.put] using ht)
+      by_cases e : t.2 = j
+      · rw [e, hpc] at this; cases t.1 <;> simp [kindOk] at this
+      · simpa [St.put, upd, e] using this
+
+theorem applyA_inv {D : Type} (fl : Flags) (hk : Hooks D) (a : StA D) (e : Ev) (h : InvA a) : InvA (applyA fl hk a e) := by
+  cases e with
+  | step => exact stepA_inv fl hk a h
+  | wait =>
+    exact inv_of_bg h (bg_misc _ _ [.waiterRun] rfl rfl (by simp [nonControl]) rfl rfl rfl rfl rfl)
+  | deliver k =>
+    simp only [applyA]
+    split
+    · rename_i kind j hkj
+      split
+      · exact h
+      · exact deliverA_inv a k j kind _ _ h hkj
+    · exact h
+  | submit ident deps code marker =>
+    simp only [applyA]
+    have h0 := submitPre_inv a h (newJob a.s ident deps code marker) ⟨rfl, rfl, rfl⟩
+    have hpc0 : ((submitPre a (newJob a.s ident deps code marker)).s.jobs a.s.n).pc = .none := by simp [submitPre, upd, newJob]
+    obtain ⟨t1, -, -, t4, -⟩ := stepsA_idle fl hk (a.s.ready.length + 1) _ h0 a.s.n hpc0
+    exact submitPost_inv _ _ (stepsA_inv fl hk _ _ h0) (by rw [t4]; simp [submitPre]) t1
+
+
+theorem init_inv {D : Type} (totals : List Nat) (d : D) : InvA ({ s := St.init totals, d := d } : StA D) := by
+  unfold InvA
+  constructor
+  · intro i; simp [St.init, LocV, CtlV, view, cStart, cRes, cW, cWake, cSleep, cThr, pk, launched, pcMarker, pcAdopted]
+  · intro i _; simp [St.init]
+  · intro i hi; simp [St.init] at hi
+  · intro t ht; simp [St.init] at ht
 
 end XpmVerif.Restart
